@@ -373,6 +373,10 @@ contract(
         "ev_max(self) == old(ev_max(self)) + len(N)",
         "all(in_bucket(self, old(ev_max(self)) + 1 + j, bucket_id) and holds(self, old(ev_max(self)) + 1 + j, N[j]) for j in range(len(N)))",
         "all(i <= old(ev_max(self)) or i > ev_max(self) or in_bucket(self, i, bucket_id) for i in event_ids(self))",      # (the same, by row id)
+        # (the same, by position in the argument list: the event at position i, if it carries no id, has the row of its own)
+        "all(events[i].id is not None or (0 <= filter_pos(N)[i] and filter_pos(N)[i] < len(N)"
+        "    and in_bucket(self, old(ev_max(self)) + 1 + filter_pos(N)[i], bucket_id)"
+        "    and holds(self, old(ev_max(self)) + 1 + filter_pos(N)[i], events[i])) for i in range(len(events)))",
         # every other row: rewritten by the last upsert addressed to it if it is a live event of the addressed bucket, else untouched
         UPSERTED.format(COND=" if i <= old(ev_max(self)) or i > ev_max(self)"),
         # C18: a pure bulk insert issued more than ten seconds after the previous flush is flushed before it returns
